@@ -39,6 +39,8 @@ PROBES = [f"kv-split-top{a}-old{b}-new{c}" for a in (0, 1) for b in (0, 1) for c
     "value-is-a-node-body",
     "rolled-back-by-root-hash-assignment",
     "rolled-back-by-root-node-assignment",
+    "second-handle-on-the-same-store",
+    "unrelated-trie-in-the-same-process",
     "root-node-assignment-refused-by-store",
 ]
 FAULTS = ["write-fail-applied", "write-fail-not-applied", "withhold-node", "crash-reopen", "store-lost-writes"]
@@ -282,6 +284,7 @@ class World(BWorld):
             # lost writes: the store falls back to what it held when `root` was current;
             # roots that are no longer backed by the store are forgotten by the client too
             self.db.restore(self.snaps[root])
+            self.other_shared = None  # what the other handle wrote on this store is lost as well
             raw = self.db.raw()
             keep = [r for r in self.order if all(h in raw for h in RefBin(self.registry[r]).nodes)]
             if root not in keep:
@@ -306,6 +309,56 @@ class World(BWorld):
         self._ref = None
         self.changed = True
         self.st.probe("reopened-at-earlier-root")
+        return "ok"
+
+    def op_other(self, cmd):
+        """Another client works with a trie object of its own: an unrelated trie on its own
+        store (same process) or a second handle on the same store, opened at the root that
+        was current when it first appeared.  Each client is served as if it were alone."""
+        shared = bool(cmd.get("shared"))
+        slot = "other_shared" if shared else "other_own"
+        o = getattr(self, slot, None)
+        if o is None:
+            if shared:
+                o = [BinaryTrie(self.db, fresh(self.trie.root_hash)), dict(self.model)]
+            else:
+                from ..simdb import SimDB
+
+                o = [BinaryTrie(SimDB()), {}]
+            setattr(self, slot, o)
+        t, model = o
+        k = unhx(cmd["k"])
+        v = unhx(cmd.get("v", ""))
+        from ..bworld import conflicts
+
+        try:
+            if v:
+                t.set(k, v)
+                if conflicts(model, k):
+                    self.viol("override-accepted", f"another client's set({k.hex()}) was accepted although a key it stored is a proper prefix or extension of the key")
+                model[k] = v
+            else:
+                t.delete(k)
+                model.pop(k, None)
+        except NodeOverrideError:
+            if not conflicts(model, k):
+                self.viol("unexpected-exception", f"another client's call on {k.hex()} was refused with NodeOverrideError although nothing it stored conflicts with the key")
+        except Exception as e:
+            self.viol("unexpected-exception", f"another client's call on its own trie object raised {e!r}")
+        if t.root_hash != RefBin(model).root_hash:
+            self.viol("root-not-canonical", "another client's trie (its own object" + (", same store" if shared else ", own store") + ") has a root that is not the canonical root of its contents")
+        for kk in sorted(model)[:3]:
+            try:
+                got = t.get(kk)
+            except Exception as e:
+                self.viol("lookup-mismatch", f"another client's get({kk.hex()}) raised {e!r}")
+            if got != model[kk]:
+                self.viol("lookup-mismatch", f"another client's get({kk.hex()}) gave {got!r}, it wrote {model[kk]!r}")
+        # ... and this client's trie is what it was
+        if self.trie.root_hash != self.ref().root_hash:
+            self.viol("root-not-canonical", "the trie's root changed although only another client's object was used")
+        self.check_contents("lookup-mismatch", "another client's operation", keys=sorted(self.model)[:4])
+        self.st.probe("second-handle-on-the-same-store" if shared else "unrelated-trie-in-the-same-process")
         return "ok"
 
     def op_badroot(self, cmd):
@@ -417,6 +470,14 @@ def generate(rng):
                 lk = add_fault(rng, lk)
                 lk.pop("fw", None)
             cmds.append(lk)
+    if rng.random() < 0.3 and len(cmds) > 2 and len(pool) <= 40:
+        # other clients with trie objects of their own, interleaved
+        shared = int(rng.random() < 0.6)
+        for _ in range(rng.choice([1, 2, 4, 6])):
+            c = {"op": "other", "shared": shared if rng.random() < 0.8 else 1 - shared, "k": hx(rng.choice(pool))}
+            if rng.random() < 0.75:
+                c["v"] = hx(rng.choice(values) or b"v")
+            cmds.insert(rng.randrange(1, len(cmds) + 1), c)
     return {"prop": ID, "cfg": {"probe": [hx(k) for k in probes[:40]], "store": rng.choice(["min", "min", "dict"])}, "cmds": cmds}
 
 
